@@ -30,7 +30,8 @@ EXTRA_DEFS = ["smoot = 1.7018 * meter = smt", "zork = 3 * second", "blip = 0.5 *
 BATTERY = [["conv", "3", "meter", "inch"], ["conv", "2", "kilometer", "mile"], ["parse_units", "kilosecond"],
            ["compat", "second"], ["base", "mile"], ["tobase", "5", "psi"], ["contains", "smoot"], ["contains", "zork"],
            ["conv", "500", "nm", "terahertz"], ["members", "root"], ["conv", "1", "xq1z", "meter"],
-           ["members", "newgroup1"], ["fmt_q", "2.5", "meter / second ** 2", "~P"], ["name", "kilonewtons"]]
+           ["members", "newgroup1"], ["fmt_q", "2.5", "meter / second ** 2", "~P"], ["name", "kilonewtons"], ["settings"],
+           ["compat", "mile"], ["base", "gallon"]]
 
 
 def num(s):
